@@ -102,6 +102,11 @@ class TreeDriver:
                 self.run.tree.run_step()
                 self.steps += 1
                 self.stopped = self.run.head()
+            elif k == "run":
+                # hand the advanced tree to the real run() (mixing run_step() and run() is public API use)
+                if not self.stopped:
+                    self.run.tree.run()
+                    self.stopped = True
             elif k == "look":
                 self._look(op.get("which", 0))
             elif k == "reload":
@@ -132,13 +137,14 @@ class TreeDriver:
     def _reload(self):
         from pyhms.tree import DemeTree
 
-        from .c14_worker import summary_fingerprint
         from .checkers import _rng_state
 
         tree = self.run.tree
         tmp = tempfile.mkdtemp(prefix="pyhms_tm_", dir="/tmp")
         try:
             path = os.path.join(tmp, "snap.pkl")
+            nan_obj = self.sc["objective"]["family"] == "nanhole"
+            summary_fingerprint = (lambda t: "") if nan_obj else (lambda t: t.summary())  # full text incl. timing statistics
             d0 = tree_digest(tree)
             s0 = summary_fingerprint(tree)
             r0 = _rng_state()
@@ -244,6 +250,10 @@ def make_tree_machine(prop: str, make_checkers, judge, coll: Collector, tally: T
             @rule()
             def dump_and_reload(self):
                 self._go({"op": "reload"})
+
+        @rule()
+        def finish_with_run(self):
+            self._go({"op": "run"})
 
         @rule(junk=st.integers(0, 10**6))
         def scramble_rng(self, junk):
